@@ -917,5 +917,21 @@ func clauseGhost(u *Unit, clause string) string {
 			return g
 		}
 	}
+	// abstract (uninterpreted) spec functions, directly or through a defined spec: a run of the
+	// real code cannot evaluate them either
+	for _, n := range sortedKeys(u.eng.cs.Specs) {
+		sf := u.eng.cs.Specs[n]
+		if !has(n) {
+			continue
+		}
+		if sf.Abstract {
+			return "abstract spec " + n
+		}
+		for _, m := range sortedKeys(u.eng.cs.Specs) {
+			if u.eng.cs.Specs[m].Abstract && strings.Contains(sf.Text, m+"(") {
+				return "abstract spec " + m + " via " + n
+			}
+		}
+	}
 	return ""
 }
